@@ -64,6 +64,25 @@ CLAIMS['C17'] = dict(
         'ratios recomputed with the level beta) and driver ops setbetas/anneal against the real setter/annealer.',
    design='3/C17', note=TB)
 
+CLAIMS['C05'] = dict(
+   technique='Lean 4 proof (bisimulation: simulation relation established by load-of-save and preserved by every continuation) + generated-table obligation + correspondence + every-cut resume search',
+   text='C05_resume_level: a freshly constructed chain that loads the saved state is Sfx-related to the source (equal on every field a future '
+        'step reads) given state-complete, well-formed proposals; C05_resume_bisim: for EVERY continuation (iterations, clears, run boundaries) '
+        'the resumed PT/plain chain stays PSfx-related to the uninterrupted one and saves the same state; C05_resume_of_resume; '
+        'C05_related_save_equal; C05_proposal_roundtrip; C05_incomplete_state_counterexample shows why completeness is needed. '
+        'EpsieProps/C05Table.lean re-proves StateComplete by decide on tables measured on the live classes each run. The model has no generator: '
+        'the bit-generator state travels as an opaque value inside the saved state (numpy trusted); bit-exactness of recomputed floats is '
+        'searched on the real code (every cut, fresh sampler with another seed, pickled state, chains of two resumes).',
+   design='3/C05', note=TB + '; numpy bit-generator state get/set trusted')
+CLAIMS['C20'] = dict(
+   technique='Lean 4 proof (algebraic round-trip/frame laws over a byte-array file model, induction over dump sequences) + correspondence against an in-memory h5py stand-in + direct search',
+   text='17 theorems (C20_roundtrip, C20_dump_succeeds_iff, C20_overwrite, C20_fresh, C20_assign_exact, C20_tobytes_keeps_every_byte, '
+        'C20_elementwise_read_drops_zero_bytes, C20_frame, C20_frame_datasets, C20_failed_dump_no_effect, C20_unlimited_preserved, '
+        'C20_sequences, C20_sequences_total, C20_sequences_catching, C20_state_roundtrip, C20_checkpoint_roundtrip, C20_checkpoint_other_name) '
+        'over EpsieModel/Checkpoint.lean, for all byte strings and all dump sequences. The real dump_state/load_state/checkpoint/'
+        'set_state_from_checkpoint run against harness/h5stub.py (numpy-backed) and are compared with the model byte for byte.',
+   design='3/C20', note=TB + '; h5py is not installable here: fidelity of harness/h5stub.py to h5py/HDF5 (S1 storage, resize) is assumed; CPython pickle trusted')
+
 NOT_YET = {}
 
 def main():
